@@ -190,6 +190,13 @@ class Gen:
         return self.g_table()
 
     def g_field(self, scope=None, alias_ok=True):
+        if self.p(self.k["p_ref"] * 0.25):
+            # a Field object of the heap passed by reference (the same object may sit in several statements)
+            F = self.L.terms.Field
+            c = self.slots(lambda v, i: self.kind(v) == "term" and type(v) is F
+                           and (alias_ok or lib.state(v).get("alias") is None))
+            if c:
+                return self.var(self.ch(c))
         tbl = self.scope_table(scope) if self.p(0.85) else None
         s = {"t": "field", "name": self.ch(COLS), "tbl": tbl}
         if tbl is not None and self.p(0.25):
@@ -236,6 +243,8 @@ class Gen:
         s = {"t": "new", "c": "ValueWrapper", "a": [self.g_pyval()]}
         if self.p(0.2):
             s["kw"] = {"alias": self.new_alias()}
+        if self.p(0.12):
+            s.setdefault("kw", {})["allow_parametrize"] = False  # public flag: this constant is never bound
         return s
 
     def g_expr(self, d, scope=None, term_only=True):
@@ -264,7 +273,10 @@ class Gen:
         c = self.wch([("arith", 5), ("fn1", 3), ("fn2", 1.5), ("neg", 0.7), ("case", 1), ("analytic", 1),
                       ("cast", 0.6), ("powmod", 0.5), ("tuple", 0.5), ("array", 0.4), ("json", 0.5),
                       ("interval", 0.4), ("subq", 0.6), ("extract", 0.3), ("leaf", 2), ("crit", 0.5),
-                      ("aliased", 0.8), ("bracket", 0.2), ("attz", 0.15), ("custom", 0.3), ("now", 0.2)])
+                      ("aliased", 0.8), ("bracket", 0.2), ("attz", 0.15), ("custom", 0.3), ("now", 0.2),
+                      ("rare", 0.7)])
+        if c == "rare":
+            return self.g_rare(d, scope)
         if c == "leaf":
             return self.g_expr(0, scope)
         if c == "arith":
@@ -324,7 +336,8 @@ class Gen:
             if self.p(0.5):
                 m = self.ch(["get_json_value", "get_text_value", "has_key", "contains", "contained_by",
                              "get_path_json_value", "has_keys", "has_any_keys"])
-                arg = ["k1", "k2"] if m in ("has_keys", "has_any_keys") else self.ch(["k", 1, "{a,b}"])
+                arg = ["k1", "k2"] if m in ("has_keys", "has_any_keys") else \
+                    self.ch(["k", 1, "{a,b}", None, {"t": "v", "k": "dict", "v": {"a": 1}}, self.g_field(scope, alias_ok=False)])
                 base = self.g_field(scope, alias_ok=False) if self.p(0.6) else j
                 return {"t": "meth", "x": base, "m": m, "a": [arg]}
             return j
@@ -357,6 +370,64 @@ class Gen:
         if c == "now":
             return {"t": "new", "c": self.ch(["fn.Now", "fn.CurTimestamp", "fn.CurDate", "fn.UtcTimestamp"])}
         return self.g_field(scope)
+
+    def g_rare(self, d, scope=None):
+        """Seldom-used corners of the term API (each one a code path no other generator branch reaches)."""
+        x = lambda: self.g_expr(d - 1, scope)  # noqa: E731
+        f = lambda: self.g_field(scope, alias_ok=False)  # noqa: E731
+        c = self.ch(["pctl", "convert", "signed", "tsadd", "insert", "regexm", "curtime", "typelen", "customfn",
+                     "schemafn", "not_deleg", "not_attr", "values", "any", "wrapenum", "wrapterm", "method_cmp"])
+        if c == "pctl":
+            return {"t": "new", "c": "fn.ApproximatePercentile", "a": [f(), self.ch([0.5, 0.9, "0.25"])]}
+        if c == "convert":
+            return {"t": "new", "c": "fn.Convert", "a": [x(), {"t": "enum", "c": "Order", "v": "asc"}]}
+        if c == "signed":
+            return {"t": "new", "c": self.ch(["fn.Signed", "fn.Unsigned"]), "a": [x()]}
+        if c == "tsadd":
+            return {"t": "new", "c": "fn.TimestampAdd", "a": [self.ch(["day", "hour"]), self.ch([1, 7]), f()]}
+        if c == "insert":
+            return {"t": "new", "c": "fn.Insert", "a": [x(), 1, 2, self.ch(["zz", "q"])]}
+        if c == "regexm":
+            a = [f(), "^a"] + (["g"] if self.p(0.5) else [])
+            return {"t": "new", "c": "fn.RegexpMatches", "a": a}
+        if c == "curtime":
+            return {"t": "new", "c": "fn.CurTime"}
+        if c == "typelen":
+            return {"t": "new", "c": "fn.Cast", "a": [x(), {"t": "meth", "x": {"t": "const", "name": self.ch(["SqlTypes.VARCHAR", "SqlTypes.CHAR"])},
+                                                      "m": "__call__", "a": [self.ch([10, 255])]}]}
+        if c == "customfn":
+            if self.p(0.3):
+                return {"t": "meth", "x": {"t": "new", "c": "CustomFunction", "a": ["NOARGS"]}, "m": "__call__",
+                        "kw": {"alias": self.new_alias()}}
+            return {"t": "meth", "x": {"t": "new", "c": "CustomFunction", "a": ["MYDIFF", ["a", "b"]]}, "m": "__call__",
+                    "a": [x(), self.g_pyval(True)]}
+        if c == "schemafn":
+            return {"t": "new", "c": "Function", "a": ["fx", x()], "kw": {"schema": {"t": "schema", "name": "s"}}}
+        if c == "not_deleg":
+            # methods of the wrapped class reached through Not.__getattr__ (re-wrapped in Not)
+            k = self.ch(["filter", "over", "when"])
+            if k == "filter":
+                return {"t": "meth", "x": {"t": "un", "op": "not", "x": {"t": "new", "c": self.ch(AGG), "a": [f()]}},
+                        "m": "filter", "a": [self.g_crit(0, scope)]}
+            if k == "over":
+                return {"t": "meth", "x": {"t": "un", "op": "not", "x": self.g_analytic(d, scope, bare=True)},
+                        "m": "over", "a": [f()]}
+            return {"t": "meth", "x": {"t": "un", "op": "not", "x": self.g_case(d, scope, nwhen=1)}, "m": "when",
+                    "a": [self.g_crit(0, scope), self.ch([1, "t"])]}
+        if c == "not_attr":
+            # a plain attribute of the wrapped term read through Not.__getattr__, then used again
+            return {"t": "new", "c": "Field", "a": [{"t": "attr", "x": {"t": "un", "op": "not", "x": f()}, "name": "name"}]}
+        if c == "values":
+            return {"t": "new", "c": "Values", "a": [self.ch(COLS) if self.p(0.5) else f()]}
+        if c == "any":
+            return {"t": "meth", "x": {"t": "reg", "c": "Criterion"}, "m": self.ch(["any", "all"]),
+                    "a": [[self.g_crit(0, scope) for _ in range(self.rng.randint(1, 3))]]}
+        if c == "wrapenum":
+            return {"t": "new", "c": "ValueWrapper", "a": [{"t": "enum", "c": self.ch(["Order", "DatePart"]), "v": self.ch(["asc"]) }]} \
+                if self.p(0.5) else {"t": "new", "c": "ValueWrapper", "a": [{"t": "enum", "c": "DatePart", "v": "year"}]}
+        if c == "wrapterm":
+            return {"t": "new", "c": "ValueWrapper", "a": [x()]}
+        return {"t": "meth", "x": x(), "m": self.ch(["eq", "ne", "gt", "gte", "lt", "lte"]), "a": [self.g_pyval(True)]}
 
     def g_case(self, d, scope=None, nwhen=None):
         s = {"t": "new", "c": "Case"}
@@ -506,7 +577,7 @@ class Gen:
         f = self.k["focus"]
         w = [("query", 5), ("table", 1.2), ("term", 2.5), ("crit", 1.5), ("case", 0.8), ("agg", 0.8),
              ("analytic", 0.8), ("create", 0.6), ("drop", 0.25), ("load", 0.2), ("joinobj", 0.25),
-             ("schema", 0.15), ("tuple", 0.3), ("contains", 0.4)]
+             ("schema", 0.15), ("tuple", 0.3), ("contains", 0.4), ("field", 1.0)]
         if f == "term":
             w = [(n, x * (3 if n in ("term", "crit", "case", "agg", "analytic", "contains", "tuple") else 0.5)) for n, x in w]
         elif f == "ddl":
@@ -525,8 +596,23 @@ class Gen:
                 x["qc"] = self.ch(self.k["qcls"])  # Table.select/insert/update start statements of that dialect
             if self.p(0.2):
                 x["for"] = {"t": "meth", "x": {"t": "const", "name": "SYSTEM_TIME"}, "m": "as_of", "a": ["2020-01-01"]}
+            r = self.rng.random()
+            if r < 0.08:    # Schema.__getattr__ / Database.__getattr__
+                x = {"t": "attr", "x": {"t": "schema", "name": "s"}, "name": self.ch(["a", "t9"])} if self.p(0.5) else \
+                    {"t": "attr", "x": {"t": "attr", "x": {"t": "schema", "name": "db", "db": True}, "name": "s"}, "name": "a"}
+            elif r < 0.16:  # Query.Table / Query.Tables remember the query class
+                qc = {"t": "cls", "name": self.ch(self.k["qcls"])}
+                x = {"t": "meth", "x": qc, "m": "Table", "a": [self.ch(["a", "t8"])]} if self.p(0.5) else \
+                    {"t": "bin", "op": "getitem", "l": {"t": "meth", "x": qc, "m": "Tables",
+                                                         "a": ["a", {"t": "v", "k": "tuple", "v": ["b", "b1"]}]},
+                     "r": self.ch([0, 1])}
         elif c == "term":
             x = self.g_expr(d)
+        elif c == "field":
+            # a Field the caller keeps and passes to several statements (often without a table)
+            x = {"t": "field", "name": self.ch(COLS), "tbl": None if self.p(0.5) else self.g_table()}
+            if self.p(0.15):
+                x["alias"] = self.new_alias()
         elif c == "crit":
             x = self.g_crit(d)
         elif c == "case":
@@ -538,9 +624,13 @@ class Gen:
         elif c == "create":
             x = {"t": "meth", "x": {"t": "cls", "name": self.ch(self.k["qcls"])}, "m": "create_table",
                  "a": [self.ch(["t_new", {"t": "table", "name": "t2", "schema": "s", "fresh": True}])]}
+            if self.p(0.12):
+                x = {"t": "new", "c": "CreateQueryBuilder"}  # no table yet: renders the empty string
         elif c == "drop":
             x = {"t": "meth", "x": {"t": "cls", "name": self.ch(self.k["qcls"])}, "m": "drop_table",
                  "a": [self.ch(["t_old", {"t": "table", "name": "t3", "fresh": True}])]}
+            if self.p(0.12):
+                x = {"t": "new", "c": "DropQueryBuilder"}
         elif c == "load":
             x = {"t": "meth", "x": {"t": "cls", "name": "MySQLQuery"}, "m": "load", "a": ["/tmp/f.csv"]}
         elif c == "joinobj":
@@ -1068,10 +1158,17 @@ class Gen:
             item = {"t": "new", "c": "AliasedQuery", "a": ["cte1"]}
         else:
             item = {"t": "meth", "x": self.g_query(0, nsel=1), "m": "union", "a": [self.g_query(0, nsel=1)]}
-            item = {"t": "meth", "x": item, "m": "as_", "a": [self.new_alias()]}
+            if self.p(0.6):  # otherwise un-aliased: the library assigns sqN to the set operation
+                item = {"t": "meth", "x": item, "m": "as_", "a": [self.new_alias()]}
+        if self.p(0.02):
+            item = self.ch([42, "a_string"])  # ill-typed: rejected by join() itself
         how = {"t": "enum", "c": "JoinType", "v": self.ch(JOINTYPES)} if self.p(0.6) else None
         fin = self.wch([("on", 6), ("on_field", 1.5 if self.nfrom(v) else 0), ("using", 1.5), ("cross", 1)])
         op = {"op": "join", "item": item, "how": how, "fin": fin}
+        if self.p(0.12):
+            op["how"] = None
+            op["via"] = self.ch(["inner_join", "left_join", "left_outer_join", "right_join", "right_outer_join",
+                                 "outer_join", "full_outer_join", "cross_join", "hash_join"])
         # the ON criterion refers to the joined item: an equal table spec (cached, hence a
         # different-but-equal object when the join item is fresh) or the heap object itself
         if isinstance(item, dict) and item.get("t") == "table":
@@ -1287,7 +1384,14 @@ class Gen:
         for _ in range(self.rng.randint(1, 3)):
             c = self.wch([("field", 4), ("str", 3), ("star", 1), ("expr", 1), ("val", 1), ("fn", 0.3), ("tstar", 0.5)])
             if c == "field":
-                a.append(self.g_field(scope))
+                F = self.L.terms.Field
+                hf = self.slots(lambda v, i: self.kind(v) == "term" and type(v) is F)
+                if hf and self.p(0.35):
+                    a.append(self.var(self.ch(hf)))  # the caller's own Field object (possibly without a table)
+                elif self.p(0.25):
+                    a.append({"t": "field", "name": self.ch(COLS), "tbl": None})
+                else:
+                    a.append(self.g_field(scope))
             elif c == "str":
                 a.append(self.ch(COLS))
             elif c == "star":
